@@ -28,7 +28,7 @@ PROPS = {
                    "md_prod oracle (__int128 schoolbook). Remaining explicit hypotheses: twiddle accuracy 3.5u of both tables (measured every run by ff_tables, "
                    "libm not proved) and PipeOk = no overflow / no inexact underflow in the flagged run (not discharged from the magnitude box). "
                    "H1-H4 of Properties/C01.lean are discharged in Properties/Closed.lean for the real network in exact arithmetic. Zero rows of the SVP pipeline in "
-                   "binary64 are not proved (exact-arithmetic rows_zero + bit-exact stream)",
+                   "binary64: proved (C02Err.svp_zero_rows_f64); the overflow half of PipeOk is discharged from the magnitude box (C02Err.no_overflow_of_box, small_product_exact_f64_noovf_partial): only the underflow side condition remains",
         level_text="Lean 4 theorems (exact arithmetic, all N, all limb shapes) over the bit-exactly validated module model, unconditional for the real FFT network (Closed); "
                    "end-to-end binary64 rounding budget and exactness theorem with constant 12 instead of the property's 8 (partial), the property's constant by differential oracle",
         design_ref="DESIGN.md §5 C01",
@@ -39,7 +39,7 @@ PROPS = {
     "C02": dict(
         title="Vector-matrix product (VMP) equals the naive polynomial product for all shapes",
         module="SpqProofs.Properties.C02",
-        extra_modules=["SpqProofs.Properties.Closed"],
+        extra_modules=["SpqProofs.Properties.Closed", "SpqProofs.Properties.C02Err"],
         streams=dict(quick=[("md_model", "plain"), ("md_vmp", "plain"), ("md_prog", "plain")],
                      thorough=[("md_model", "plain"), ("md_vmp", "plain"), ("md_prog", "plain")]),
         proved="vmp_layout (layout_inverse): for ANY fft/fromZnx, in exact arithmetic, vmp_apply_dft_to_dft(vmp_prepare(M)) column j < min(ncols, rsz), "
@@ -48,11 +48,15 @@ PROPS = {
                "mul/addmul ref and fma, every nrows, ncols, asz, rsz >= 0; vmp_exact: under H1-H4 the inverse DFT of vmp_apply_dft is column j = "
                "sum_i a_i * M[i][j] in Z[X]/(X^nn+1), other limbs zero; vmp_apply_dft_eq: vmp_apply_dft = vmp_apply_dft_to_dft o vec_znx_dft as arrays for "
                "any carrier (binary64 included) and any prepared matrix (apply reads only min(nrows, asz) rows)",
-        not_proved="[update: vmp_closed in Properties/Closed.lean removes H1-H4 for the real network in exact arithmetic] numeric part as C01: the summed rounding budget over the rows is tied only by the md_vmp oracle "
-                   "(integer matrix-vector product on small operands); scratch-space split of vmp_apply_dft (tmp_space offsets) is not modelled at heap level "
-                   "(C11 sanitizer stream)",
+        not_proved="BINARY64 (Properties/C02Err.lean, about the bit-exactly validated model functions): every coefficient of column j of idft(vmp_apply_dft(prepare M)) is an integer "
+                   "within E_sum + 1/2 of the exact sum_i a_i*M[i][j], E_sum = (12 log2(N) + 2n + 3) 2^-53 sum_i (|a_i|_1 |M_ij|_2 + |a_i|_2 |M_ij|_1), n = min(nrows, a_size): the C01Err "
+                   "budget per row (constant 12, not the property's 8: hence _partial) plus an explicit accumulation term; exact integer result when E_sum < 1/2 (vmp_exact_f64_partial); "
+                   "columns >= min(ncols, res_size) exactly zero in binary64, unconditionally (vmp_zero_cols_f64); dot-product kernels (ref/avx2, 1 and 2 columns, nn<8 chain) with "
+                   "gamma(n) = (1+u)^(2n+2)-1; prepare/apply layout for an arbitrary arithmetic record (vmp_layout_f64); no overflow from the magnitude box (vmp_no_overflow_of_box). "
+                   "Remaining explicit hypotheses: twiddle accuracy 3.5u and |stored twiddle| <= 1 (measured by ff_tables, libm not proved), and the underflow side condition of the "
+                   "flagged run. H1-H4 discharged in Closed (vmp_closed). Scratch-space split of vmp_apply_dft (tmp_space offsets) is not modelled at heap level (C11 sanitizer stream)",
         level_text="Lean 4 theorems: address arithmetic of prepare/apply for every shape and both layouts (unconditional in exact arithmetic), exact product "
-                   "conditional on H1-H4; bit-exact correspondence of the binary64 instance on shape boxes incl. sizes 0 (partial: rounding budget)",
+                   "unconditional for the real network (Closed); binary64 summed rounding budget and exactness with constant 12 instead of 8 (partial); bit-exact correspondence of the binary64 instance on shape boxes incl. sizes 0",
         design_ref="DESIGN.md §5 C02",
         technique="Lean 4 proof (slot-injectivity of the prepared layout, loop invariants over the block/column/row loops) + bit-exact correspondence",
         assumptions=COMMON_ASSUME + ["H1-H4 (ExactDft) for vmp_exact only; vmp_layout and vmp_apply_dft_eq need no FFT hypothesis",
